@@ -562,7 +562,9 @@ class GBNFCompiler:
 
     def _compile_date(self) -> str:
         """Compile DATE constraint to YYYY-MM-DD pattern."""
-        return '[0-9][0-9][0-9][0-9] "-" [0-9][0-9] "-" [0-9][0-9]'
+        # The value is emitted as a quoted string: a bare 2024-01-15 is lexed as three numbers
+        # (2024, -01, -15) and would reach the DATE constraint as "2024 -01 -15".
+        return '"\\"" [0-9][0-9][0-9][0-9] "-" [0-9][0-9] "-" [0-9][0-9] "\\""'
 
     def _compile_iso8601(self) -> str:
         """Compile ISO8601 constraint to datetime pattern."""
@@ -570,7 +572,8 @@ class GBNFCompiler:
         date = '[0-9][0-9][0-9][0-9] "-" [0-9][0-9] "-" [0-9][0-9]'
         time = '"T" [0-9][0-9] ":" [0-9][0-9] ":" [0-9][0-9]'
         tz = '("Z" | ("+" | "-") [0-9][0-9] ":" [0-9][0-9])?'
-        return f"{date} ({time} {tz})?"
+        # Quoted for the same reason as DATE (and ':' is the block operator outside strings)
+        return f'"\\"" {date} ({time} {tz})? "\\""'
 
     def _escape_literal(self, value: str) -> str:
         """Escape special characters for GBNF literal.
